@@ -117,7 +117,8 @@ theorem serialize_cfg (ns : List Node) : ∀ h c, (serialize h c ns).1.cfg = h.c
 /-! ### emitter / world frame -/
 
 /-- what attachment (and the constructor) fixed on the emitter side -/
-def Emitter.tag (e : Emitter) : Bool × Kind × Bool := (e.code, e.kind, e.fam64)
+def Emitter.tag (e : Emitter) : (Bool × Kind × Bool) × (Option Arch × Nat × Bool) :=
+  ((e.code, e.kind, e.fam64), (e.arch, e.instAlign, e.invalidRex))
 
 theorem setCur_tag (e : Emitter) (c : Cur) : (e.setCur c).tag = e.tag := rfl
 theorem addNode_tag (e : Emitter) (n : Node) : (e.addNode n).tag = e.tag := by
@@ -313,8 +314,8 @@ theorem inv_frame_attached (w w' : World) (i : Nat) (e : Emitter) (hw : Inv w) (
   have hatt : w'.h.attached = w.h.attached := congrArg Prod.snd hcfg
   have harch : w'.h.arch = w.h.arch := congrArg Prod.fst hcfg
   have hia : i ∈ w.h.attached := hw.ac i e hi hc
-  have hcode : e'.code = e.code := congrArg Prod.fst htag
-  have hproj : proj e' = proj e := congrArg Prod.snd htag
+  have hcode : e'.code = e.code := congrArg (fun t => t.1.1) htag
+  have hproj : proj e' = proj e := congrArg (fun t => t.1.2) htag
   have get : ∀ j, w'.es[j]? = if j = i then some e' else w.es[j]? := by
     intro j; rw [hes, updAt_getElem?]
     by_cases hji : j = i
